@@ -222,7 +222,7 @@ class C25(Check):
     def cases(self):
         r = self.rng
         out = self.directed()
-        N = 1400 if self.tier == "quick" else 30000
+        N = 6000 if self.tier == "quick" else 120000
         while len(out) < N:
             nt, keys, progs = self.gen_programs(r)
             resp = 1
@@ -450,6 +450,11 @@ class C25(Check):
                     return "final entry %d of key %d is not the live incarnation" % (ident, key)
                 if r_ == 0 and c_ == l_:
                     return "final entry of key %d is unused (cnt = lmt = %d, not retained) but was not reclaimed" % (key, c_)
+        # every incarnation that left the table went back to the mempool (exactly once: see above)
+        final_ids = {v[0] for v in tab.values()}
+        for ident in sorted(seen_ids):
+            if ident not in final_ids and ident not in freed_ids:
+                return "entry %d left the table but was never given back to the mempool (not reclaimed)" % ident
         return None
 
     def signature(self, case, obs):
